@@ -429,7 +429,7 @@ def run(ctx):
     if ctx.histogram.get("sync scenario: an instance went stale", 0) < 50 or ctx.histogram.get("sync event delete", 0) < 20:
         raise common.InfraError("degenerate distribution of the staleness scenarios: %s" % ({k: v for k, v in ctx.histogram.items() if k.startswith("sync")},))
     sp = ctx.histogram.get("non-normal spelling: tag move or undeclare then plain declare in one instance, all ok", 0)
-    if nh > 60 and sp < nh // 25:
+    if nh > 60 and sp < max(2, nh // 60):        # observed ≈ 7 % of the quick tier's histories, ≈ 3.5 % of the thorough tier's: the floor guards against degeneration, not against binomial noise
         raise common.InfraError("degenerate distribution: %d single-instance tag-move-then-declare sequences under a non-normal "
                                 "spelling of the stack path in %d histories" % (sp, nh))
     inside = ctx.histogram.get("race: B ran inside A's reload", 0)
